@@ -4,6 +4,7 @@ package main
 
 import (
 	"fmt"
+	"go/token"
 	"go/types"
 	"strings"
 
@@ -180,6 +181,33 @@ func (fr *Frame) enterLoop(li *loopInfo, preds []*ssa.BasicBlock) {
 			fr.oblige(fmt.Sprintf("loop%d", li.ordinal), "established/"+clauseLabel(cl, i), cl.Props, fr.evalBool(cl.Expr, envIn), h.Instrs[0].Pos())
 		}
 	}
+	// automatic invariants: range index bounds, and "no error swallowed so far"
+	li.rangeBound = nil
+	for _, phi := range li.phis {
+		if phi.Comment != "rangeindex" {
+			continue
+		}
+		if iff, ok := h.Instrs[len(h.Instrs)-1].(*ssa.If); ok {
+			if cmp, ok := iff.Cond.(*ssa.BinOp); ok && cmp.Op == token.LSS {
+				if add, ok := cmp.X.(*ssa.BinOp); ok && add.Op == token.ADD && add.X == ssa.Value(phi) {
+					if in, isInstr := cmp.Y.(ssa.Instruction); !isInstr || !li.body[in.Block()] {
+						li.rangeBound = fr.term(fr.val(cmp.Y))
+						li.rangePhi = phi
+						inc := fr.term(incoming[phi])
+						fr.oblige(fmt.Sprintf("loop%d", li.ordinal), "established/auto-range-index", []string{"C05"}, And(Le(IntLit(-1), inc), Lt(inc, li.rangeBound)), h.Instrs[0].Pos())
+					}
+				}
+			}
+		}
+	}
+	li.tracksErr = fr.loopCallsTracked(li)
+	if li.tracksErr && !ex.pure {
+		es := ex.st.ghost["errSeen"]
+		if es == nil {
+			es = TFalse
+		}
+		fr.oblige(fmt.Sprintf("loop%d", li.ordinal), "established/auto-no-error-swallowed-so-far", []string{"C11"}, Not(es), h.Instrs[0].Pos())
+	}
 	// havoc
 	wcells, wheap, all := fr.writtenInLoop(li)
 	if all {
@@ -203,13 +231,9 @@ func (fr *Frame) enterLoop(li *loopInfo, preds []*ssa.BasicBlock) {
 		ex.heapGet(ex.st, k, fs)
 		ex.st.heap[k] = ex.p.FreshConst("loop"+fmt.Sprint(li.ordinal)+"_H_"+k, SArray(SInt, fs))
 	}
-	if fr.loopCallsTracked(li) {
-		if _, ok := ex.st.ghost["errSeen"]; !ok {
-			ex.st.ghost["errSeen"] = TFalse
-		}
-		for k := range ex.st.ghost {
-			ex.st.ghost[k] = ex.p.FreshConst("loop"+fmt.Sprint(li.ordinal)+"_g_"+k, SBool)
-		}
+	if li.tracksErr {
+		// the automatic invariant: no error has been swallowed when the loop head is reached
+		ex.st.ghost["errSeen"] = TFalse
 	}
 	li.optimisticFresh = map[*ssa.Phi]bool{}
 	cur := map[*ssa.Phi]*GVal{}
@@ -242,11 +266,9 @@ func (fr *Frame) enterLoop(li *loopInfo, preds []*ssa.BasicBlock) {
 			li.variantAtHead = append(li.variantAtHead, fr.evalTerm(cl.Expr, env))
 		}
 	}
-	// automatic range-loop facts: rangeindex phi >= -1
-	for _, phi := range li.phis {
-		if phi.Comment == "rangeindex" {
-			ex.addFact(Le(IntLit(-1), cur[phi].T))
-		}
+	// automatic range-loop invariant (established above, preserved at the back edges)
+	if li.rangeBound != nil {
+		ex.addFact(Implies(fr.cur, And(Le(IntLit(-1), cur[li.rangePhi].T), Lt(cur[li.rangePhi].T, li.rangeBound))))
 	}
 	for c := range wcells {
 		if c.site != nil {
@@ -337,6 +359,17 @@ func (fr *Frame) checkBackEdges(b *ssa.BasicBlock) {
 		pos := b.Instrs[len(b.Instrs)-1].Pos()
 		if !pos.IsValid() {
 			pos = s.Instrs[0].Pos()
+		}
+		if li.rangeBound != nil {
+			bt := fr.term(back[li.rangePhi])
+			fr.oblige(fmt.Sprintf("loop%d", li.ordinal), "preserved/auto-range-index", []string{"C05"}, And(Le(IntLit(-1), bt), Lt(bt, li.rangeBound)), pos)
+		}
+		if li.tracksErr && !ex.pure {
+			es := ex.st.ghost["errSeen"]
+			if es == nil {
+				es = TFalse
+			}
+			fr.oblige(fmt.Sprintf("loop%d", li.ordinal), "preserved/auto-no-error-swallowed-so-far", []string{"C11"}, Not(es), pos)
 		}
 		if li.spec != nil {
 			for i, cl := range li.spec.Invariants {
